@@ -4,7 +4,7 @@ satisfy for its printed text to be such a spelling.  Core only.
 -/
 import NetaddrVerif.Lemmas.C08LMatch
 namespace NV.Eui
-open NV.Py NV.Codec NV.Gen
+open NV.Py NV.PyL NV.Codec NV.Gen
 
 /-- the `'%.<pad>x'` width `eui48.str_to_int` chooses from the group count -/
 def pad48 (n : Nat) : Option Nat :=
